@@ -93,6 +93,7 @@ pub fn classify(rep: &RunReport, known: &[Known]) -> (Vec<Violation>, Vec<(Strin
 pub fn trace_hash(rep: &RunReport) -> u64 {
     let mut r = rep.clone();
     r.sample = None;
+    r.replay_scenario = None;
     crate::rng::fnv(serde_json::to_string(&r).unwrap_or_default().as_bytes())
 }
 
@@ -159,7 +160,7 @@ pub fn cmd_worker(args: &[String]) -> i32 {
         if let Some(v) = viol.first() {
             let path = format!("{}/replays/{}-{}-r{}.raw.json", VERIF_DIR, p.id(), seed, run);
             let rp = Replay {
-                scenario: sc.clone(),
+                scenario: rep.replay_scenario.clone().unwrap_or_else(|| sc.clone()),
                 violation: v.clone(),
                 minimised: false,
                 note: String::new(),
